@@ -132,9 +132,15 @@ func printReport(rep *FnReport, verbose bool) {
 			}
 		}
 	}
-	for _, c := range rep.Covers {
-		if c.Result != nil && c.Result.Status == "unsat" {
-			fmt.Printf("  VACUOUS     %s -- %s is unreachable under the contract\n", c.Name, c.Desc)
+	for _, name := range vacuousCovers(rep.Covers) {
+		fmt.Printf("  VACUOUS     %s is unreachable under the contract\n", name)
+		if verbose && os.Getenv("GOVC_SHOWVAC") != "" {
+			for _, c := range rep.Covers {
+				if c.Name == name {
+					fmt.Println(indent(strings.Join(c.Facts, "\n"), "      | "))
+					break
+				}
+			}
 		}
 	}
 	if verbose {
@@ -170,6 +176,7 @@ func cmdSweep(args []string) {
 	fs := flag.NewFlagSet("sweep", flag.ExitOnError)
 	verbose := fs.Bool("v", false, "verbose")
 	timeout := fs.Int("t", 10000, "solver timeout ms")
+	full := fs.Bool("full", false, "also functional obligations")
 	fs.Parse(args)
 	pkg := ""
 	if fs.NArg() > 0 {
@@ -183,7 +190,7 @@ func cmdSweep(args []string) {
 			continue
 		}
 		fn := p.funcs[k]
-		rep := p.genObligations(fn, ExecMode{Safety: true, Overflow: true}, nil)
+		rep := p.genObligations(fn, ExecMode{Safety: true, Overflow: true, Functional: *full}, nil)
 		discharge(rep.Obs, dischargeOpts{timeoutMs: *timeout, workers: 16})
 		nbad := 0
 		for _, s := range summarize(rep.Obs) {
@@ -198,4 +205,26 @@ func cmdSweep(args []string) {
 		}
 	}
 	fmt.Printf("sweep: %d obligations, %d not discharged, %.1fs\n", total, bad, time.Since(start).Seconds())
+}
+
+// vacuousCovers: cover points for which every path instance is refuted.
+func vacuousCovers(covers []*Obligation) []string {
+	reach := map[string]bool{}
+	var order []string
+	for _, c := range covers {
+		if _, ok := reach[c.Name]; !ok {
+			reach[c.Name] = false
+			order = append(order, c.Name)
+		}
+		if c.Result == nil || c.Result.Status != "unsat" {
+			reach[c.Name] = true
+		}
+	}
+	var out []string
+	for _, n := range order {
+		if !reach[n] {
+			out = append(out, n)
+		}
+	}
+	return out
 }
